@@ -83,6 +83,36 @@ package scen
 //                                      that end while a round is in flight.
 //   schedule-merge                     (label of cadence/catch-up violations
 //                                      whose key's region was consolidated)
+//   cadence-restart                    "re-advertised ... at least once per
+//                                      reprovide interval plus the allowed
+//                                      delay until it is stopped, regardless of
+//                                      ... restart": the cadence clause over a
+//                                      history that contains restarts. Kept
+//                                      key, last complete round made in a clean
+//                                      window, since then nothing but restarts
+//                                      from a clean state (any number, resume
+//                                      on, same datastore): next complete round
+//                                      within (I + maxDelay) * 1.05 of that
+//                                      round plus the restarts' own downtime
+//                                      (Close called .. successor online and
+//                                      clean). Dropped by any fault window, by
+//                                      a restart from a state that is not
+//                                      clean, and with
+//                                      WithSkipBootstrapReprovide (see
+//                                      c17_restarts.go, which makes histories
+//                                      with several restarts frequent).
+//   cadence-restart-regroup            (same clause; label of the pending
+//                                      finding: a restarted instance scheduled
+//                                      the key under a region of another prefix
+//                                      length since its last round - see
+//                                      restartRule)
+//   Fault step due-outage (generator only, judged by catch-up /
+//   catch-up-prompt): an outage that begins a drawn fraction of the failure
+//   latency before the next reprovide of kept keys is due (their last complete
+//   round + the interval), with a ProvideOnce at its beginning, so that the
+//   reprovide falls due after the first failure and before the node has found
+//   itself disconnected ("offline/online transitions (after which missed work
+//   is caught up)").
 //   api-panic/-hang/-error, close-panic/-hang, new-failed, leak
 
 import (
@@ -125,10 +155,11 @@ func init() {
 	probes := []string{"probe_region_split", "probe_region_merge", "probe_vanilla_path", "probe_batch_path", "probe_outage_during_round",
 		"probe_catchup_ran", "probe_restart_with_queued_work", "probe_stop_before_first_advert", "probe_worker_starvation",
 		"probe_reprovide_round", "probe_round_judged", "probe_first_advert", "probe_sut_offline", "probe_sut_disconnected", "probe_empty_prefix_queue_persisted",
-		"probe_owed_after_blackout", "probe_owed_batch_after_blackout", "probe_advert_after_blackout"}
+		"probe_owed_after_blackout", "probe_owed_batch_after_blackout", "probe_advert_after_blackout",
+		"probe_region_reprovide_fails_while_disconnected", "probe_cadence_carried_over_restart", "probe_round_after_restart"}
 	sim.Register(&sim.Scenario{Prop: "C17", Name: "sweep", Weight: 3, Run: func(s *sim.Sim) { runC17Sweep(s, true) },
 		Real: real, Stub: stub,
-		Faults: append([]string{"fault_outage", "fault_outage_midround", "fault_peer_fail", "fault_send_blackout", "fault_router_error", "fault_send_error", "time_advance", "swarm_grow", "swarm_shrink", "addr_change", "restart"}, probes...)})
+		Faults: append([]string{"fault_outage", "fault_outage_midround", "fault_outage_before_due", "fault_peer_fail", "fault_send_blackout", "fault_router_error", "fault_send_error", "time_advance", "swarm_grow", "swarm_shrink", "addr_change", "restart"}, probes...)})
 	sim.Register(&sim.Scenario{Prop: "C17", Name: "sweep-clean", Weight: 2, Run: func(s *sim.Sim) { runC17Sweep(s, false) },
 		Real: real, Stub: stub,
 		Faults: append([]string{"time_advance", "swarm_grow", "swarm_shrink", "addr_change", "restart"}, probes[:4]...)})
@@ -236,6 +267,9 @@ type c17Cfg struct {
 	faults    bool
 	maxBatch  int
 	stepLimit int
+	// restartBias (scenario sweep-restarts): restarts are drawn more often, so
+	// that a run sees several instances on one datastore
+	restartBias bool
 }
 
 func (c *c17Cfg) String() string {
@@ -388,6 +422,23 @@ type c17Key struct {
 	msgsInFault   bool
 	ever          bool
 	nComplete     int
+	// rule cadence-restart: xLast is the key's last complete round, made in a
+	// clean window of an earlier instance, when only restarts from a clean state
+	// (and no fault window) happened since (-1: none); xDown is the downtime of
+	// those restarts (Close called .. restarted node online and clean), xN their
+	// number
+	xLast, xDown time.Duration
+	xN           int
+	// regroup: since the key's last complete round the scheduled region that
+	// covers it was replaced by one of another prefix length (label of
+	// cadence-restart violations, see restartRule; regroupNote: first change)
+	regroup     bool
+	regroupNote string
+	// slotDown: since the key's last complete round the slot of its scheduled
+	// region came up while the node was being restarted, or less than
+	// c17RoundSpan before Close was called (label, see restartRule)
+	slotDown     bool
+	slotDownNote string
 	// owed: accepted while the node was online by its own account and the
 	// router had answered ever since the last clean window; no record of the key
 	// was delivered to anybody since (rule first-advert-after-fault)
@@ -415,6 +466,92 @@ func (k *c17Key) timingRule(clause string) string {
 		return "schedule-merge"
 	}
 	return clause
+}
+
+// restartRule returns the rule id of a cadence-restart violation. Pending
+// finding cadence-restart-regroup: since the key's last round one of the
+// restarted instances scheduled it under a region of another prefix length
+// (the swarm grew or shrank, or the successor's prefix-length measurement came
+// out differently), and the slot of that region lies elsewhere in the cycle (a
+// longer prefix comes up to interval / 2^len later, the second half of a
+// merged region has its slot up to that much earlier). A running instance
+// handles both moves: it caps the next slot of a region it has just
+// reprovided at now + interval + max delay (schedulePrefixNoLock,
+// justReprovided), and it merges regions only by reproviding the broader one.
+// The successor does neither: RefreshSchedule uses the plain slot of the new
+// prefix, and the bootstrap check (loadRecentlyReprovidedRegions /
+// enqueueExpiredRegionsNoLock) only asks whether the history holds entries
+// younger than one interval that cover the region by prefix (entries of both
+// halves are coalesced, an entry of a shorter prefix covers the longer ones),
+// not when the key is due. A key whose new slot has already passed in the
+// current cycle, or comes later than the old one, then waits up to two
+// intervals. The label is computed from the read-only schedule snapshots taken
+// at every quiet point; a violation whose key stayed under regions of one
+// prefix length ever since its last round is reported under the clause's own
+// id.
+func (h *c17H) restartRule(k *c17Key) string {
+	if k.regroup {
+		return "cadence-restart-regroup"
+	}
+	if k.slotDown {
+		return "cadence-restart-slot-down"
+	}
+	return k.timingRule("cadence-restart")
+}
+
+func (h *c17H) restartNote(k *c17Key) string {
+	if k.regroup {
+		return fmt.Sprintf("; since its last round a restarted instance replaced the scheduled region of the key by one of another prefix length (%s), whose slot lies elsewhere in the cycle: the successor neither caps the move at interval + max delay (as a running instance does when it reschedules a region it has just reprovided) nor catches the region up when it starts (the reprovide history, matched by prefix only, holds entries younger than one interval that cover it)", k.regroupNote)
+	}
+	if k.slotDown {
+		return fmt.Sprintf("; %s: the successor does not catch the region up when it starts, because its last reprovide is younger than one interval, and arms its timer for the slot of the next cycle", k.slotDownNote)
+	}
+	return k.mergeNote()
+}
+
+// c17RoundSpan: a round whose slot came up less than this long before Close
+// was called may still have been in flight at Close (label slotDown only).
+const c17RoundSpan = time.Minute
+
+// labelSlotDown runs at the quiet point at which a restarted node is online
+// and clean again. Pending finding cadence-restart-slot-down: the slot of a
+// region comes up while the node is being restarted (or so shortly before
+// Close that its reprovide is cut short). The successor's bootstrap check
+// (enqueueExpiredRegionsNoLock) only catches up regions whose last recorded
+// reprovide is older than one interval; a region reprovided later than its
+// slot in the previous cycle (first provide, catch-up after an earlier start)
+// is younger than that, is not caught up, and RefreshSchedule arms the timer
+// for the slot of the NEXT cycle: the key waits up to two intervals although
+// the node was down for seconds. The slot is read from the schedule of the
+// successor (injected read-only accessor) and compared with the downtime the
+// harness measured. Labels only; a violation whose key's slot did not come up
+// around a downtime is reported under the clause's own id.
+func (h *c17H) labelSlotDown(sched []string) {
+	cs, slots := provider.VerifScheduleSlots(h.prov)
+	anchor := time.Duration(cs - h.s.Start.UnixNano())
+	ivl := h.cfg.interval
+	from, to := h.downFrom-c17RoundSpan, h.downTo+time.Second
+	for _, k := range h.keys {
+		if k.xLast < 0 || !k.hasSched {
+			continue
+		}
+		off, ok := slots[k.schedPrefix]
+		if !ok {
+			continue
+		}
+		// first occurrence of the slot at or after `from`
+		t := anchor + time.Duration(off)
+		if t < from {
+			t += (from - t + ivl - 1) / ivl * ivl
+		} else {
+			t -= (t - from) / ivl * ivl
+		}
+		if t >= from && t <= to && !k.slotDown {
+			k.slotDown = true
+			k.slotDownNote = fmt.Sprintf("the slot of its scheduled region %q came up at %v, the node was being restarted from %v to %v", k.schedPrefix, t, h.downFrom, h.downTo)
+			h.s.Count("probe_slot_during_restart")
+		}
+	}
 }
 
 func (k *c17Key) mergeNote() string {
@@ -492,6 +629,8 @@ type c17H struct {
 	winSendOnly          bool         // the open fault window consists of send black-outs only
 	offCount             atomic.Int32 // disconnected / offline callbacks of the provider
 	lastOffCount         int32
+	restartAt            time.Duration // instant at which the restart in progress called Close (-1: none)
+	downFrom, downTo     time.Duration // the restart whose downtime was accounted at this fixpoint (downFrom < 0: none)
 }
 
 func (h *c17H) signal() {
@@ -785,6 +924,11 @@ func (h *c17H) answer(p *sim.Parked) {
 			h.outageSeenFail = true
 			h.lastFailAt = s.Now()
 			s.Count("fault_router_error")
+			if c.Reprov && h.sut.Load() != c17Online && h.byMh[c.Key] == nil {
+				// the exploration of a region reprovide fails when the node already
+				// knows that it is not online
+				s.Count("probe_region_reprovide_fails_while_disconnected")
+			}
 			s.Release(p, error(errC17Outage))
 			return
 		}
@@ -851,7 +995,7 @@ var c17Soft = os.Getenv("VERIF_C17_SOFT") != ""
 // the unchanged tree. Env VERIF_C17_PENDING=strict raises them regardless
 // (that is how the replays under findings/ were recorded; strict=<rule> only
 // that rule), =soft never does.
-var c17PendingRules = map[string]bool{"first-advert-after-fault-reprovide": true, "buffered-close-drops-batch": true, "buffered-restart-reorder": true}
+var c17PendingRules = map[string]bool{"first-advert-after-fault-reprovide": true, "buffered-close-drops-batch": true, "buffered-restart-reorder": true, "cadence-restart-regroup": true, "cadence-restart-slot-down": true}
 
 var c17Listed struct {
 	once  sync.Once
@@ -1094,6 +1238,7 @@ func (h *c17H) beginFault(kind string, cleanCut bool) {
 	for _, k := range h.keys {
 		k.pendingFirst, k.resumePending = false, false
 		k.catchDue, k.promptDue = -1, -1
+		k.xLast = -1
 		if !h.winSendOnly {
 			k.owed = false
 		}
@@ -1444,9 +1589,16 @@ func (h *c17H) fixpoint(quiet bool) {
 			if h.lastOnlineAt >= 0 && k.kept && k.validBefore && now-h.lastOnlineAt <= c17FirstBound && h.outageSeenFail && k.catchDue >= 0 {
 				s.Count("probe_catchup_ran")
 			}
+			if k.xLast >= 0 {
+				s.Count("probe_round_after_restart")
+				if k.xN > 1 {
+					s.Count("probe_round_after_two_restarts")
+				}
+			}
+			k.xLast = -1
 			k.lastComplete, k.ever = now, true
 			k.nComplete++
-			k.merged = false
+			k.merged, k.regroup, k.slotDown = false, false, false
 			roundNow[k.idx] = true
 			k.pendingFirst, k.resumePending = false, false
 			k.catchDue, k.promptDue = -1, -1
@@ -1483,6 +1635,16 @@ func (h *c17H) fixpoint(quiet bool) {
 				h.faultFree = now
 			}
 			h.lastOnlineAt = now
+			if h.restartAt >= 0 {
+				// rule cadence-restart: the restart's own downtime is granted on top
+				for _, k := range h.keys {
+					if k.xLast >= 0 {
+						k.xDown += now - h.restartAt
+					}
+				}
+				h.downFrom, h.downTo = h.restartAt, now
+				h.restartAt = -1
+			}
 			for _, k := range h.keys {
 				if k.kept {
 					// rule catch-up: after a fault window (or a restart) every kept key
@@ -1559,6 +1721,9 @@ func (h *c17H) fixpoint(quiet bool) {
 				if !strings.HasPrefix(bits, p) {
 					continue
 				}
+				if k.hasSched && len(p) != len(k.schedPrefix) && !roundNow[k.idx] && !k.regroup {
+					k.regroup, k.regroupNote = true, fmt.Sprintf("%q by %q at %v", k.schedPrefix, p, now)
+				}
 				if k.hasSched && len(p) < len(k.schedPrefix) && !roundNow[k.idx] {
 					// the region k is scheduled under was replaced by a broader one
 					// without k being advertised at that instant
@@ -1568,7 +1733,11 @@ func (h *c17H) fixpoint(quiet bool) {
 				break
 			}
 		}
+		if h.downFrom >= 0 {
+			h.labelSlotDown(sched)
+		}
 	}
+	h.downFrom = -1
 
 	// deadlines
 	for _, k := range h.keys {
@@ -1600,6 +1769,12 @@ func (h *c17H) fixpoint(quiet bool) {
 		if k.kept && h.cleanSince >= 0 && k.lastComplete >= h.cleanSince && now-k.lastComplete > bound {
 			s.Violate(k.timingRule("cadence"), "%s kept for reproviding: last complete round at %v, none since, now %v (interval %v + max delay %v + 5%%); node online and fault-free since %v%s", k.name, k.lastComplete, now, c.interval, c.maxDelay, h.cleanSince, k.mergeNote())
 			k.lastComplete = -1
+		}
+		if k.kept && k.xLast >= 0 && h.cleanSince >= 0 && h.restartAt < 0 && now-k.xLast > h.boundC+k.xDown {
+			// rule cadence-restart: the cadence clause over a history that contains
+			// restarts from a clean state and no fault
+			h.violatePending(h.restartRule(k), "%s kept for reproviding: last complete round at %v, none since, now %v (interval %v + max delay %v + 5%%, plus %v during which the node was being restarted); no fault was injected since, the node was restarted %d time(s) on the same datastore (resume enabled) from an online, fault-free state and is online and fault-free again since %v%s", k.name, k.xLast, now, c.interval, c.maxDelay, k.xDown, k.xN, h.cleanSince, h.restartNote(k))
+			k.xLast = -1
 		}
 		if k.kept && k.catchDue >= 0 && now > k.catchDue {
 			s.Violate(k.timingRule("catch-up"), "%s kept for reproviding has no complete round by %v although the node is online and fault-free again since %v%s", k.name, k.catchDue, h.cleanSince, k.mergeNote())
@@ -1859,6 +2034,7 @@ func (h *c17H) accept(ks []*c17Key, kind string, force bool) {
 			if !wasKept {
 				// rounds of an earlier life (or of a ProvideOnce) do not count
 				k.lastComplete, k.validBefore, k.merged = -1, false, false
+				k.xLast, k.regroup = -1, false
 			}
 			if wasKept && !force {
 				continue // already provided in the past: no new obligation
@@ -1901,7 +2077,7 @@ func newC17H(s *sim.Sim, c *c17Cfg) (*c17H, func()) {
 
 	h := &c17H{s: s, cfg: c, u: simnet.NewUniverse(seed, 0), rng: newSubRng(s, "world"),
 		wake: make(chan struct{}, 1), member: map[peer.ID]bool{}, usedPeer: map[int]bool{}, failing: map[peer.ID]bool{},
-		byMh: map[string]*c17Key{}, reported: map[peer.ID]int{}, due: map[string]time.Duration{}, stepRounds: map[string]int{}, sendRounds: map[string]map[uint64]bool{}, failLat: c.failLat, cleanSince: -1, faultFree: -1, prevClean: -1, lastOnlineAt: -1, lastFailAt: -1, chain: 1}
+		byMh: map[string]*c17Key{}, reported: map[peer.ID]int{}, due: map[string]time.Duration{}, stepRounds: map[string]int{}, sendRounds: map[string]map[uint64]bool{}, failLat: c.failLat, cleanSince: -1, faultFree: -1, prevClean: -1, lastOnlineAt: -1, lastFailAt: -1, restartAt: -1, downFrom: -1, chain: 1}
 	h.boundC = (c.interval+c.maxDelay)*105/100 + time.Second
 	h.snd = &simnet.Sender{S: s, U: h.u}
 	h.ds = simds.New(s, "ds")
@@ -1919,7 +2095,7 @@ func newC17H(s *sim.Sim, c *c17Cfg) (*c17H, func()) {
 			continue
 		}
 		usedKey[i] = true
-		k := &c17Key{name: fmt.Sprintf("k%04d", i), mh: mh.Multihash(e.raw), kad: e.kad, lastComplete: -1, catchDue: -1, promptDue: -1, stoppedAt: -1}
+		k := &c17Key{name: fmt.Sprintf("k%04d", i), mh: mh.Multihash(e.raw), kad: e.kad, lastComplete: -1, catchDue: -1, promptDue: -1, stoppedAt: -1, xLast: -1}
 		h.keys = append(h.keys, k)
 		h.byMh[e.raw] = k
 	}
@@ -2028,11 +2204,15 @@ func (h *c17H) step() {
 		catPeerFail
 		catMidRound
 		catSendFail
+		catDueOutage
 	)
 	weights := []int{catAdvance, catAdvance, catAdvance, catAdvance, catAdvance, catAdvance, catStart, catStart, catStart, catOnce, catStop, catStop, catSwarm, catSwarm, catAddrs, catRestart}
 	if c.faults {
 		// (new categories are appended at the end: recorded schedules keep their meaning)
-		weights = append(weights, catOutage, catOutage, catPeerFail, catMidRound, catSendFail, catSendFail)
+		weights = append(weights, catOutage, catOutage, catPeerFail, catMidRound, catSendFail, catSendFail, catDueOutage, catDueOutage)
+	}
+	if c.restartBias {
+		weights = append(weights, catRestart, catRestart, catRestart)
 	}
 	cat := weights[s.Draw("step", len(weights))]
 	if len(h.keys) == 0 && (cat == catStart || cat == catOnce || cat == catStop) {
@@ -2101,6 +2281,7 @@ func (h *c17H) step() {
 				k.owed = false
 				k.stoppedAt = now
 				k.lastComplete = -1 // a later StartProviding starts a new history
+				k.xLast, k.regroup = -1, false
 				k.validBefore, k.merged = false, false
 				// an unacknowledged first advertisement may or may not still happen
 				k.pendingFirst, k.resumePending = false, false
@@ -2161,6 +2342,34 @@ func (h *c17H) step() {
 		if pend > 0 && h.held {
 			s.Count("probe_restart_with_queued_work")
 		}
+		// rule cadence-restart: a kept key whose last complete round lies in the
+		// clean window that ends with this restart (or in that of an earlier
+		// instance, with nothing but clean restarts in between) keeps its cadence
+		// obligation over the restart. WithSkipBootstrapReprovide asks the new
+		// instance not to look at what is due when it starts; the property does not
+		// speak about that option, so nothing is carried over with it.
+		carried, carried2 := 0, 0
+		for _, k := range h.keys {
+			switch {
+			case !clean || !k.kept || c.skipBoot:
+				k.xLast = -1
+			case k.xLast >= 0:
+				k.xN++
+				carried++
+				carried2++
+			case k.lastComplete >= 0 && k.lastComplete >= h.cleanSince:
+				k.xLast, k.xDown, k.xN = k.lastComplete, 0, 1
+				k.slotDown = false
+				carried++
+			}
+		}
+		if carried > 0 {
+			s.Count("probe_cadence_carried_over_restart")
+		}
+		if carried2 > 0 {
+			s.Count("probe_cadence_carried_over_two_restarts")
+		}
+		h.restartAt = s.Now()
 		if !h.closeProvider() {
 			return
 		}
@@ -2209,6 +2418,87 @@ func (h *c17H) step() {
 			h.outage = false
 			h.dirty = true
 		}
+
+	case catDueOutage:
+		// An outage that begins a short, drawn time before the next reprovide of
+		// kept keys is due, with a ProvideOnce at its very beginning: the
+		// ProvideOnce is the first operation to fail, the node finds itself
+		// disconnected one failed connectivity probe later, and the reprovide
+		// falls due in between - while the node is online by its own account and
+		// the network is already down - so that it fails when the node already
+		// knows. ("offline/online transitions (after which missed work is caught
+		// up)": work that becomes due inside the detection window of an outage.)
+		// The due instant is taken from what the harness saw - the keys' last
+		// complete round plus the interval it configured - and the lead from its
+		// own failure latency; rounds that carried several keys are preferred (the
+		// region path). Judged by the existing outage rules (catch-up,
+		// catch-up-prompt); the step adds nothing to the oracle.
+		isQuietClean := func() bool { return h.isClean() && h.cleanSince >= 0 && !h.dirty && h.quiet }
+		if !isQuietClean() {
+			s.Tracef("step due-outage noop")
+			return
+		}
+		now := s.Now()
+		type dueGrp struct {
+			at time.Duration
+			n  int
+			re bool // a REprovide round: it was made at the region's place in the cycle
+		}
+		var gs []dueGrp
+		for _, k := range h.keys {
+			if !k.kept || k.nComplete < 1 || k.lastComplete < h.cleanSince || k.lastComplete+c.interval-now <= 4*h.failLat {
+				continue
+			}
+			found := false
+			for i := range gs {
+				if gs[i].at == k.lastComplete {
+					gs[i].n++
+					gs[i].re = gs[i].re || k.nComplete >= 2
+					found = true
+				}
+			}
+			if !found {
+				gs = append(gs, dueGrp{k.lastComplete, 1, k.nComplete >= 2})
+			}
+		}
+		if len(gs) == 0 {
+			s.Tracef("step due-outage noop (nothing due)")
+			return
+		}
+		sort.Slice(gs, func(i, j int) bool {
+			if gs[i].re != gs[j].re {
+				return gs[i].re
+			}
+			if gs[i].n != gs[j].n {
+				return gs[i].n > gs[j].n
+			}
+			return gs[i].at < gs[j].at
+		})
+		g := gs[s.Draw("due-pick", min(2, len(gs)))]
+		lead := h.failLat * time.Duration(5+s.Draw("due-lead", 3)) / 4
+		d := g.at + c.interval - lead - now
+		s.Tracef("step due-outage advance %v (round of %d key(s) at %v, lead %v)", d, g.n, g.at, lead)
+		s.Count("time_advance")
+		h.advance(d)
+		if s.Failed() || h.stop {
+			return
+		}
+		if !isQuietClean() {
+			s.Tracef("  due-outage: not at a clean quiet point")
+			return
+		}
+		s.Tracef("  due-outage outage-begin")
+		s.Count("fault_outage")
+		s.Count("fault_outage_before_due")
+		h.outage = true
+		h.outageSeenFail = false
+		h.beginFault("outage", true)
+		ks := h.pickKeys("due-once")
+		s.Tracef("  due-outage once %s", keyNames(ks))
+		if h.api("ProvideOnce", func() error { return h.prov.ProvideOnce(keyMhs(ks)...) }) {
+			h.accept(ks, "once", true)
+		}
+		h.settle()
 
 	case catPeerFail:
 		if len(h.failing) > 0 && s.Chance("heal", 1, 2) {
